@@ -77,6 +77,16 @@ def sibling_cases(draw):
 
 
 @st.composite
+def number_type_twins(draw):
+    """A loop-free game in pure integer arithmetic (rewards beyond 2**53, every probability the integer 1) and
+    its twin whose numbers are floats: the two descriptions compare equal element by element (2**60 == 2.0**60),
+    yet the integer one is solved exactly and the float one is not.  The float twin is solved first."""
+    from props.c05 import huge_int_cases
+    c = draw(huge_int_cases(allow_float=False))
+    return dict(kind="type_twins", game=c["game"], prune=games.coin(draw))
+
+
+@st.composite
 def board_cases(draw, max_len=3, max_wid=3):
     b = draw(boards.boards(max_len=max_len, max_wid=max_wid))
     return dict(kind="board", board=b, variant=draw(st.sampled_from("abc")), prune=games.coin(draw))
@@ -177,6 +187,8 @@ def phases(tier):
               note="states worth 1e-9..1e-6: positive, hence not dead, must survive conditioning"),
         Phase("repository-examples", enum=example_cases, note="inputs/*.py example games, consistency + exact if stopping"),
         Phase("stopping-games", strategy=lambda: stopping_cases(9 if tier == "quick" else 12), examples=(1500, 60000)),
+        Phase("number-type-twins", strategy=number_type_twins, examples=(150, 5000),
+              note="a pure-integer game beyond 2^53 solved right after its float-typed twin (equal under ==)"),
         Phase("sibling-pairs-back-to-back", strategy=sibling_cases, examples=(250, 10000),
               note="same transition lists, different rewards / owners, solved consecutively"),
         Phase("boards-consistency", strategy=lambda: board_cases(3, 3) if tier == "quick" else board_cases(4, 4),
@@ -226,6 +238,18 @@ def check_case(case):
             w = check_case(dict(kind="game", game=g, prune=case["prune"]))
             v.fails.extend(w.fails)
             v.nontrivial = v.nontrivial or w.nontrivial
+        return v
+    if case["kind"] == "type_twins":
+        v.cls("number_type_twins")
+        game = case["game"]
+        twin = games.copy_game(game)
+        twin["rewards"] = [float(x) for x in twin["rewards"]]
+        twin["transition_list"] = [[(float(a), t) if pl == PR else (a, t) for a, t in lst]
+                                   for pl, lst in zip(twin["players"], twin["transition_list"])]
+        solve(twin, prune, sweeps=200)                      # the float-typed twin goes first
+        w = check_case(dict(kind="game", game=game, prune=prune, exact_integers=True))
+        v.fails.extend(w.fails)
+        v.nontrivial = True
         return v
     if case["kind"] == "board":
         gms = boards.games_from_board(case["board"])
@@ -333,6 +357,11 @@ def check_case(case):
             v.fail("not-a-number", f"{label}: state {s} reports {rh!r}")
             continue
         allowed = tol(1e-6, Tc, rs_)
+        if case.get("exact_integers") and (type(rh) is not int or rh != rs_):
+            # integer rewards, integer probabilities, no loops: the solver's sums are exact integers
+            v.fail("integer-game-not-exact", f"{label}: state {s} reports {rh!r} ({type(rh).__name__}), the game is in "
+                                             f"pure integer arithmetic and the exact value is {rs_}", sig="exact")
+            break
         if abs(rh - float(rs_)) > allowed:
             v.fail("reward-differs-from-conditioned-value",
                    f"{label}: state {s} ({game['players'][s]}) reports {rh!r}, exact value of the conditioned game "
